@@ -439,6 +439,8 @@ def run_chain_session(st, calls, res, info):
                                  "detail": dict(info, call=ci, kind=kind, n=n, cap=cap, level=level,
                                                 calls=[(c[0], c[1].hex() if len(c[1]) <= 300 else "len=%d md5=%s" % (len(c[1]), md5(c[1])), c[2], c[3]) if len(c) == 4 else c
                                                        for c in calls[:ci + 1]])})
+            # the real code's result is still judged by the caller (the property does not depend on the model)
+            outs.append((kind, src, cap, level, r, consumed, out))
             srcb.free(); dstb.free()
             break
         outs.append((kind, src, cap, level, r, consumed, out))
@@ -567,6 +569,29 @@ def chain_history(st, rng, res, info, maxn, judge):
         if r > 0 and len(out) < consumed:
             res["keys"].add(key_of(src, "chain" + kind, level, len(out)))
 
+def chain_dest_sweep(st, rng, res, info, judge):
+    """LZ4_compress_HC_destSize with EVERY target size in a window (the overflow epilogue `_dest_overflow` and the last-literals
+    adjustment depend on exact byte counts), one small compressible input, one level; and the limitedOutput capacities around
+    the full size"""
+    kind = rng.choice(["runs", "period", "text", "twosym", "longmatch", "selfdict", "lit255", "mixed"])
+    n = rng.choice([30, 60, 100, 200, 400, 700])
+    src = gens.data(rng, kind, n)[:900]
+    n = len(src); b = bound(n)
+    level = rng.choice(CHAIN_LEVELS)
+    lo = rng.randrange(1, max(2, b - 40)) if b > 90 else 1
+    calls = [("ds", src, t, level) for t in range(lo, min(b + 2, lo + 90))]
+    calls += [("fr", src, c, level) for c in sorted(set(rng.randrange(0, b + 1) for _ in range(12)))]
+    outs = run_chain_session(st, calls, res, info)
+    for (k, s_, cap, lvl, r, consumed, out) in outs:
+        res["stats"]["variant_chain_sweep_" + k] += 1
+        err = judge(k, s_, cap, lvl, r, consumed, out)
+        if err:
+            res["fails"].append({"status": "prop_fail", "what": "HC hash chain (level %d, %s, capacity/target %d of a sweep): %s" % (lvl, k, cap, err),
+                                 "detail": dict(info, n=n, dkind=kind, level=lvl, cap=cap, src=src.hex() if n <= 400 else "len=%d" % n)})
+            break
+        if r > 0 and 0 < consumed < n:
+            res["keys"].add(key_of(src, "chainsweep", lvl, cap))
+
 def run_chain_case(st, case, judge):
     import random
     rng = random.Random(case["bseed"])
@@ -575,4 +600,6 @@ def run_chain_case(st, case, judge):
         chain_history(st, rng, res, {"bseed": case["bseed"], "j": j, "chain": 1}, case["maxn"], judge)
         if case["maxn"] < 20000:
             run_chain_search_session(st, rng, res, {"bseed": case["bseed"], "j": j, "chainsearch": 1})
+            if j % 4 == 0:
+                chain_dest_sweep(st, rng, res, {"bseed": case["bseed"], "j": j, "chainsweep": 1}, judge)
     return finish(res, "hcchain")
